@@ -513,6 +513,87 @@ func planRound(p *Prog, round int) roundPlan {
 		}
 		plan.expanded = append(plan.expanded, caller+" <- "+s.callee.Name())
 	}
+	// local closures that are one expression (`key := func(i int) T { return E }`) are expanded at their calls
+	for _, pkg := range p.Pkgs {
+		info := pkg.TypesInfo
+		for _, file := range pkg.Syntax {
+			if strings.HasSuffix(p.Fset.Position(file.Pos()).Filename, "_test.go") {
+				continue
+			}
+			ast.Inspect(file, func(n ast.Node) bool {
+				as, ok := n.(*ast.AssignStmt)
+				if !ok || as.Tok != token.DEFINE || len(as.Lhs) != 1 || len(as.Rhs) != 1 {
+					return true
+				}
+				lit, ok := as.Rhs[0].(*ast.FuncLit)
+				name, ok2 := as.Lhs[0].(*ast.Ident)
+				if !ok || !ok2 || len(lit.Body.List) != 1 {
+					return true
+				}
+				if _, isRet := lit.Body.List[0].(*ast.ReturnStmt); !isRet {
+					return true
+				}
+				obj := info.Defs[name]
+				if obj == nil {
+					return true
+				}
+				switch p.parents[as].(type) {
+				case *ast.BlockStmt, *ast.CaseClause:
+				default:
+					return true
+				}
+				var calls []*ast.CallExpr
+				okAll := true
+				for id, o := range info.Uses {
+					if o != obj {
+						continue
+					}
+					call, isCall := p.parents[id].(*ast.CallExpr)
+					if !isCall || call.Fun != ast.Expr(id) || containsNode(lit, call) {
+						okAll = false
+						break
+					}
+					calls = append(calls, call)
+				}
+				if !okAll || len(calls) == 0 {
+					return true
+				}
+				pf := &Fn{Prog: p, Pkg: pkg, Lit: lit, Body: lit.Body, Type: lit.Type, name: name.Name + "$closure"}
+				var eds []textEdit
+				var rs []rng
+				for _, call := range calls {
+					bb := &bodyBuilder{in: in, s: callSite{call: call, callee: pf, file: file, pkgFn: pf}, info: info}
+					if !bb.prepare() {
+						return true
+					}
+					txt, ok := bb.asExpression()
+					if !ok || overlaps(call.Pos(), call.End()) || inFrozen(call.Pos(), call.End()) {
+						return true
+					}
+					eds = append(eds, textEdit{start: in.off(call.Pos()), end: in.off(call.End()), text: txt})
+					rs = append(rs, rng{call.Pos(), call.End()})
+				}
+				// calls nested in one another would overlap
+				for i := range rs {
+					for j := range rs {
+						if i != j && rs[i].a < rs[j].b && rs[j].a < rs[i].b {
+							return true
+						}
+					}
+				}
+				if overlaps(as.Pos(), as.End()) || inFrozen(as.Pos(), as.End()) {
+					return true
+				}
+				taken = append(taken, rs...)
+				taken = append(taken, rng{as.Pos(), as.End()})
+				fe := in.file(as.Pos())
+				fe.edits = append(fe.edits, eds...)
+				fe.edits = append(fe.edits, textEdit{start: in.off(as.Pos()), end: in.off(as.End()), text: ""})
+				plan.expanded = append(plan.expanded, "local closure "+name.Name+" at "+p.Rel(as.Pos()))
+				return true
+			})
+		}
+	}
 	// index loops over a collection become range loops (same iterations, same element expressions)
 	for _, pkg := range p.Pkgs {
 		for _, file := range pkg.Syntax {
@@ -886,7 +967,7 @@ func (in *inliner) expand(s callSite) (eds []textEdit, a, b token.Pos, ok bool) 
 		return nil, 0, 0, false
 	}
 	b0 := &bodyBuilder{in: in, s: s, info: info}
-	if !b0.prepare() {
+	if !b0.prepare() || !b0.typesOK() {
 		return nil, 0, 0, false
 	}
 	// 1. single-expression helper with substitutable parameters: replace the call by the expression
@@ -946,9 +1027,49 @@ func (in *inliner) expand(s callSite) (eds []textEdit, a, b token.Pos, ok bool) 
 		if nres == 0 {
 			return nil, 0, 0, false
 		}
+		// the results are stored straight into the assigned variables when these are plain
+		// identifiers that the helper body does not declare itself
+		direct := whole && len(st.Lhs) == nres
+		var names []string
+		if direct {
+			b0.declare = make([]bool, nres)
+			for i, l := range st.Lhs {
+				id, ok := l.(*ast.Ident)
+				if !ok || (id.Name != "_" && (b0.localNames[id.Name] || b0.isBound(id.Name))) {
+					direct = false
+					break
+				}
+				names = append(names, id.Name)
+				b0.declare[i] = st.Tok == token.DEFINE && id.Name != "_" && info.Defs[id] != nil
+				if b0.declare[i] {
+					// the new variable must not hide one that an argument mentions
+					for _, at := range b0.argText {
+						if mentionsName(at, id.Name) {
+							direct = false
+						}
+					}
+				}
+			}
+		}
+		if !direct {
+			b0.declare = nil
+		}
+		after := func() string {
+			if direct {
+				return "{\n}"
+			}
+			return replaceCall(st.Pos(), st.End(), tmps())
+		}
+		tf := tmp
+		if direct {
+			tf = func(i int) string { return names[i] }
+		}
 		if inList {
-			hoist, label := b0.build(modeTemps, tmp)
-			txt := hoist + labelled(label) + replaceCall(st.Pos(), st.End(), tmps())
+			hoist, label := b0.build(modeTemps, tf)
+			txt := hoist
+			if label != "" || !direct {
+				txt += labelled(label) + after()
+			}
 			return []textEdit{{start: in.off(st.Pos()), end: in.off(st.End()), text: txt}}, st.Pos(), st.End(), true
 		}
 		// init of an if / switch: wrap the compound statement
@@ -957,19 +1078,27 @@ func (in *inliner) expand(s callSite) (eds []textEdit, a, b token.Pos, ok bool) 
 			if outer.Init != ast.Stmt(st) || !in.wrappable(outer) {
 				return nil, 0, 0, false
 			}
-			hoist, label := b0.build(modeTemps, tmp)
-			txt := "{\n" + hoist + labelled(label) + replaceCall(st.Pos(), st.End(), tmps()) + "\nif " + in.text(outer.Cond.Pos(), outer.End()) + "\n}"
+			hoist, label := b0.build(modeTemps, tf)
+			mid := ""
+			if !direct {
+				mid = after() + "\n"
+			}
+			txt := "{\n" + hoist + labelled(label) + mid + "if " + in.text(outer.Cond.Pos(), outer.End()) + "\n}"
 			return []textEdit{{start: in.off(outer.Pos()), end: in.off(outer.End()), text: txt}}, outer.Pos(), outer.End(), true
 		case *ast.SwitchStmt:
 			if outer.Init != ast.Stmt(st) || !in.wrappable(outer) {
 				return nil, 0, 0, false
 			}
-			hoist, label := b0.build(modeTemps, tmp)
+			hoist, label := b0.build(modeTemps, tf)
 			rest := in.text(outer.Body.Pos(), outer.End())
 			if outer.Tag != nil {
 				rest = in.text(outer.Tag.Pos(), outer.End())
 			}
-			txt := "{\n" + hoist + labelled(label) + replaceCall(st.Pos(), st.End(), tmps()) + "\nswitch " + rest + "\n}"
+			mid := ""
+			if !direct {
+				mid = after() + "\n"
+			}
+			txt := "{\n" + hoist + labelled(label) + mid + "switch " + rest + "\n}"
 			return []textEdit{{start: in.off(outer.Pos()), end: in.off(outer.End()), text: txt}}, outer.Pos(), outer.End(), true
 		}
 	case *ast.DeclStmt:
@@ -1080,6 +1209,16 @@ type bodyBuilder struct {
 	binds      []string              // "name" of bound parameters, parallel to bindArgs
 	bindArgs   []string
 	localNames map[string]bool
+	declare    []bool // direct targets: which results need a declaration (nil: temporaries, all declared)
+}
+
+func (b *bodyBuilder) isBound(name string) bool {
+	for _, n := range b.binds {
+		if n == name {
+			return true
+		}
+	}
+	return false
 }
 
 func (b *bodyBuilder) prepare() bool {
@@ -1087,7 +1226,14 @@ func (b *bodyBuilder) prepare() bool {
 	in.ctr++
 	b.id = in.ctr
 	f := b.s.callee
-	b.sig = f.Obj.Type().(*types.Signature)
+	if f.Obj != nil {
+		b.sig = f.Obj.Type().(*types.Signature)
+	} else {
+		b.sig, _ = b.info.TypeOf(f.Lit).(*types.Signature)
+		if b.sig == nil {
+			return false
+		}
+	}
 	b.nres = b.sig.Results().Len()
 	call := b.s.call
 	// arguments: receiver first
@@ -1353,7 +1499,11 @@ func (b *bodyBuilder) freeNamesAgree() bool {
 				return true // a definition
 			}
 			// declared inside the helper (locals, parameters)?
-			if o.Pos() >= f.Decl.Pos() && o.Pos() <= f.Decl.End() {
+			var dn ast.Node = f.Lit
+			if f.Decl != nil {
+				dn = f.Decl
+			}
+			if o.Pos() >= dn.Pos() && o.Pos() <= dn.End() {
 				if o.Pkg() == pkg {
 					return true
 				}
@@ -1586,6 +1736,9 @@ func (b *bodyBuilder) build(mode int, tmp func(int) string) (string, string) {
 	var sb strings.Builder
 	if mode == modeTemps {
 		for i := 0; i < b.nres; i++ {
+			if b.declare != nil && !b.declare[i] {
+				continue
+			}
 			tt, _ := b.typeText(b.sig.Results().At(i).Type())
 			sb.WriteString("var " + tmp(i) + " " + tt + "\n")
 		}
